@@ -16,6 +16,13 @@ CLAIMED = {
             "DESIGN.md §6 C20"),
 }
 
+import glob
+for mf in sorted(glob.glob(os.path.join(VERIF, "checks", "c*.meta.json"))):
+    md = json.load(open(mf))
+    pid = os.path.basename(mf).split(".")[0].upper()
+    if os.path.exists(os.path.join(VERIF, "checks", pid.lower() + ".py")) and not md.get("disabled"):
+        CLAIMED[pid] = (md["technique"], md["level_text"], md["level_note"], md.get("design_ref", "DESIGN.md §6 " + pid))
+
 checks = []
 na = []
 for p in props:
